@@ -172,6 +172,7 @@ func c21Run(env *c21Env, cs *c21Case, st *c21Stats) {
 	var mu sync.Mutex
 	var script []c21Target
 	served := 0
+	relNo := 0
 	var tagNo atomic.Int32
 	nextTag := func(scheme string) string {
 		return fmt.Sprintf("/c21/%s/%d", scheme, tagNo.Add(1))
@@ -183,7 +184,29 @@ func c21Run(env *c21Env, cs *c21Case, st *c21Stats) {
 		served++
 		if k < len(script) {
 			t := script[k]
-			return clResp{Status: 302, Headers: [][2]string{{"Location", t.Scheme + "://" + t.Host + nextTag(t.Scheme)}}, Body: "moved"}
+			// The same target can be named by an absolute URL, by a scheme-relative reference
+			// (same scheme) or by a path-absolute reference (same scheme and host): the form of the
+			// Location must not change where, and over what kind of connection, the next request goes.
+			curScheme := "http"
+			if rq.Conn != nil && rq.Conn.TLS {
+				curScheme = "https"
+			}
+			curHost := ""
+			if hs := rq.Get("Host"); len(hs) > 0 {
+				curHost = strings.TrimSuffix(strings.TrimSuffix(hs[0], ":80"), ":443")
+			}
+			loc := t.Scheme + "://" + t.Host + nextTag(t.Scheme)
+			// (forms rotate over the eligible redirects of the whole case)
+			if t.Scheme == curScheme {
+				relNo++
+				switch {
+				case t.Host == curHost && relNo%3 == 1:
+					loc = nextTag(t.Scheme)
+				case relNo%3 != 0:
+					loc = "//" + t.Host + nextTag(t.Scheme)
+				}
+			}
+			return clResp{Status: 302, Headers: [][2]string{{"Location", loc}}, Body: "moved"}
 		}
 		return clResp{Status: 200, Body: "done"}
 	})
